@@ -196,7 +196,7 @@ static void hc_dump_message (FILE *f, DBusMessage *m, int with_bytes)
 /* read one line of arbitrary length from stdin; returns malloc'd string without newline or NULL */
 static char *hc_readline (void)
 {
-  size_t cap = 4096, n = 0;
+  size_t cap = 160, n = 0;
   char *b = malloc (cap);
   int c;
   while ((c = getchar ()) != EOF)
